@@ -15,8 +15,24 @@ SEQ_TRUSTED = [
 ]
 
 
+# oracle failures of the seq engine carry the property they most directly contradict; a check also
+# counts those of the properties its own statement includes (e.g. C06: "history stays append-only and
+# storage complete").
+RELATED = {
+    "C01": ["C01"],
+    "C02": ["C02", "C07"],
+    "C03": ["C03", "C04"],
+    "C04": ["C04"],
+    "C06": ["C06", "C01", "C04", "C08"],
+    "C07": ["C07", "C02", "C17"],
+    "C08": ["C08", "C01"],
+    "C17": ["C17", "C07"],
+}
+
+
 def seq_spec(prop, level_text, level_note, technique, extra_assumptions=(), required=()):
     return {
+        "oracle_props": RELATED[prop],
         "props": ["Props." + prop],
         "tie": ["Tie.Seq"],
         "engines": [{"engine": "seq", "timeout": 3000}],
